@@ -725,7 +725,7 @@ class Interp(ExprMixin, StmtMixin):
         sv = self.seq_of(v)
         out = L.fresh("set")
         x = L.fresh("x")
-        self.st.assume(z3.ForAll([x], L.has(out, x) == L.has(sv.term, x), patterns=[L.has(out, x)]))
+        self.st.assume(z3.ForAll([x], L.has(out, x) == L.has(sv.term, x), patterns=[L.has(out, x), L.has(sv.term, x)]))
         self.st.assume(L.is_dictlike(out))
         self.st.assume(L.len_(out) <= L.len_(sv.term))
         self.st.assume(z3.Implies(L.len_(sv.term) > 0, L.len_(out) > 0))
@@ -1002,9 +1002,13 @@ class Interp(ExprMixin, StmtMixin):
         return ZS(L.fresh("fmt", L.S))
 
     def m_startswith(self, recv, args, kwargs, bm, node):
+        if isinstance(args[0], PySeq):          # a tuple of prefixes
+            return ZB(z3.Or(*[z3.PrefixOf(as_str(x), as_str(recv)) for x in args[0].items]) if args[0].items else z3.BoolVal(False))
         return ZB(z3.PrefixOf(as_str(args[0]), as_str(recv)))
 
     def m_endswith(self, recv, args, kwargs, bm, node):
+        if isinstance(args[0], PySeq):
+            return ZB(z3.Or(*[z3.SuffixOf(as_str(x), as_str(recv)) for x in args[0].items]) if args[0].items else z3.BoolVal(False))
         return ZB(z3.SuffixOf(as_str(args[0]), as_str(recv)))
 
     def m_join(self, recv, args, kwargs, bm, node):
